@@ -3,5 +3,6 @@ CONSTANTS
  Callers <- K2
  Mode = "idle"
  ReCheck = FALSE
+ OwnStart = TRUE
  D7Stutter = TRUE
 INVARIANT NoAlreadyRunning
